@@ -270,19 +270,25 @@ func registerExternals(m *Machine) {
 		return m.newError(fr, a[0])
 	}
 	e["fmt.Sprintf"] = func(m *Machine, fr *frame, a []value) value {
-		return fmt.Sprintf(m.concretizeStr(a[0]), m.hostArgs(fr, a[1].([]value))...)
+		return m.sprintf(fr, m.concretizeStr(a[0]), a[1].([]value))
 	}
 	e["fmt.Sprint"] = func(m *Machine, fr *frame, a []value) value {
 		return fmt.Sprint(m.hostArgs(fr, a[0].([]value))...)
 	}
 	e["fmt.Errorf"] = func(m *Machine, fr *frame, a []value) value {
-		// message text is observed by no property: arguments are pinned, not enumerated
+		// message text is observed by no property: non-string arguments are pinned, not enumerated
 		args := a[1].([]value)
 		pinned := make([]value, len(args))
 		for i := range args {
+			if iv, ok := args[i].(iface); ok {
+				if _, isS := iv.v.(*symstr); isS {
+					pinned[i] = args[i]
+					continue
+				}
+			}
 			pinned[i] = m.pinDeep(args[i])
 		}
-		msg := fmt.Sprintf(strings.ReplaceAll(m.concretizeStr(a[0]), "%w", "%v"), m.hostArgs(fr, pinned)...)
+		msg := m.sprintf(fr, strings.ReplaceAll(m.concretizeStr(a[0]), "%w", "%v"), pinned)
 		return m.newError(fr, msg)
 	}
 	e["fmt.Println"] = func(m *Machine, fr *frame, a []value) value { return tuple{int64(0), iface{}} }
@@ -959,6 +965,63 @@ func (m *Machine) hostError(fr *frame, pkgPath, typeName, msg string) value {
 	}
 	ft[v.v.(*value)] = typeName
 	return v
+}
+
+// sprintf formats like fmt.Sprintf; %s / %v of a string with symbolic bytes
+// splices those bytes into the result instead of concretising them.
+func (m *Machine) sprintf(fr *frame, format string, args []value) value {
+	hasSym := false
+	for _, a := range args {
+		if iv, ok := a.(iface); ok {
+			if _, isS := iv.v.(*symstr); isS {
+				hasSym = true
+			}
+		}
+	}
+	if !hasSym {
+		return fmt.Sprintf(format, m.hostArgs(fr, args)...)
+	}
+	var out []byte
+	var terms []*sym.Term
+	lit := func(s string) {
+		out = append(out, s...)
+		for range s {
+			terms = append(terms, nil)
+		}
+	}
+	ai := 0
+	for i := 0; i < len(format); i++ {
+		c := format[i]
+		if c != '%' || i+1 >= len(format) {
+			lit(string(c))
+			continue
+		}
+		i++
+		verb := format[i]
+		if verb == '%' {
+			lit("%")
+			continue
+		}
+		if ai >= len(args) {
+			lit("%!" + string(verb) + "(MISSING)")
+			continue
+		}
+		arg := args[ai]
+		ai++
+		if iv, ok := arg.(iface); ok && (verb == 's' || verb == 'v') {
+			if ss, isS := iv.v.(*symstr); isS {
+				out = append(out, ss.s...)
+				terms = append(terms, ss.b...)
+				continue
+			}
+		}
+		if verb != 's' && verb != 'v' && verb != 'd' && verb != 'q' && verb != 'T' && verb != 'f' && verb != 'g' {
+			// flags / widths: fall back to whole-string formatting on concrete values
+			return fmt.Sprintf(format, m.hostArgs(fr, args)...)
+		}
+		lit(fmt.Sprintf("%"+string(verb), m.hostValue(fr, arg)))
+	}
+	return mkStr(string(out), terms)
 }
 
 // hostArgs converts interpreted values to host values for fmt.
